@@ -59,7 +59,7 @@ func init() { register(&credProp{}) }
 func (p *credProp) ID() string { return "C18" }
 
 func (p *credProp) Rule() string {
-	return "scenario = pre-existing docker config document (unknown top-level keys, unknown per-entry fields, legacy URL keys) + Put/Get/Delete history on one file store; sequential histories are compared step by step with a model document and the file on disk; histories split over 2-4 tasks run under seeded interleavings and the final file must equal the result of some sequential order (porcupine); for a sampled Put/Delete every mutating disk operation of its save is a crash point (complete enumeration) after which the file must be the complete old or complete new document; non-trivial = the file was rewritten at least once with foreign content to preserve, or a crash point k>1 was exercised, or >=2 tasks interleaved; distinct = distinct (event-trace hash, final document hash)"
+	return "scenario = pre-existing docker config document (unknown top-level keys, unknown per-entry fields, legacy URL keys) + Put/Get/Delete history on one file store; sequential histories are compared step by step with a model document and the file on disk; histories split over 2-4 tasks run under seeded interleavings and the final file, and what the same store answers afterwards for every address named, must equal the result of one sequential order (porcupine); for a sampled Put/Delete every mutating disk operation of its save is a crash point (complete enumeration) after which the file must be the complete old or complete new document; non-trivial = the file was rewritten at least once with foreign content to preserve, or a crash point k>1 was exercised, or >=2 tasks interleaved; distinct = distinct (event-trace hash, final document hash)"
 }
 
 func (p *credProp) Components() map[string][]string {
@@ -727,6 +727,8 @@ func (p *credProp) concurrent(rc *RunCtx, cp *CredParams, info *RunInfo) *Verdic
 	var hist []rec
 	var mu sync.Mutex
 	var clock int64
+	post := map[string]credRes{}
+	var postAddrs []string
 	simos.Reset(simos.Config{Budget: 100000})
 	defer simos.Disable()
 	res := simrt.Run(rc.NextConfig(), func() {
@@ -755,6 +757,13 @@ func (p *credProp) concurrent(rc *RunCtx, cp *CredParams, info *RunInfo) *Verdic
 			<-done
 			simrt.Yield("join")
 		}
+		// after quiescence: what the store answers for every address the history named
+		for _, op := range cp.Ops {
+			if _, seen := post[op.Addr]; !seen && op.Addr != "" {
+				postAddrs = append(postAddrs, op.Addr)
+				post[op.Addr] = execCred(fs, CredOp{Op: "get", Addr: op.Addr})
+			}
+		}
 	})
 	rc.Done(res)
 	info.absorb(res)
@@ -771,7 +780,16 @@ func (p *credProp) concurrent(rc *RunCtx, cp *CredParams, info *RunInfo) *Verdic
 			m := state.(*credModel).clone()
 			op := input.(CredOp)
 			if op.Op == "readback" {
-				return docMatches(path, m, cp.Initial) == "", m
+				// the file and the store's own answers after quiescence, explained by one and the same order
+				if docMatches(path, m, cp.Initial) != "" {
+					return false, m
+				}
+				for _, a := range postAddrs {
+					if m.clone().apply(CredOp{Op: "get", Addr: a}) != post[a] {
+						return false, m
+					}
+				}
+				return true, m
 			}
 			exp := m.apply(op)
 			got := output.(credRes)
@@ -795,7 +813,10 @@ func (p *credProp) concurrent(rc *RunCtx, cp *CredParams, info *RunInfo) *Verdic
 			lines = append(lines, fmt.Sprintf("t%d [%d,%d] %s -> %+v", h.client, h.call, h.ret, h.op, h.res))
 		}
 		b, _ := os.ReadFile(path)
-		return violation("not-sequentially-explainable", "", "the config file after quiescence equals no sequential order of the %d operations\n%s\nfile: %s", len(hist), strings.Join(lines, "\n"), b)
+		for _, a := range postAddrs {
+			lines = append(lines, fmt.Sprintf("afterwards Get(%s) -> %+v", a, post[a]))
+		}
+		return violation("not-sequentially-explainable", "", "the config file and the store's answers after quiescence equal no sequential order of the %d operations\n%s\nfile: %s", len(hist), strings.Join(lines, "\n"), b)
 	case porcupine.Unknown:
 		info.Probes["porcupine_timeout"]++
 	}
